@@ -93,12 +93,9 @@ theorem not_writerInCS {s : Sys} {i : Nat} (h : ∀ j, j < s.n → (s.sess j).in
 /-- "… so the next session in this or any other process proceeds" (2): no deadlock and no session
 blocked forever — in every reachable state in which some session has work left, some session can
 take a step. -/
-theorem progress (sk : Skeleton) (hw : sk.wellBracketed = true) (file : List KV) (plans : List Plan)
-    (sched : List Nat) (s : Sys) (hr : s = runSched (startOf sk file plans) sched) :
+theorem progress_of_inv (s : Sys) (hs : SInv s) :
     (∃ i, i < s.n ∧ (s.sess i).prog ≠ []) → ∃ i, i < s.n ∧ enabled s i = true := by
   intro ⟨i, hi, hne⟩
-  have hs : SInv s := hr ▸ inv_reachable sk hw file plans sched
-  clear hr
   by_cases hcs : ∃ k, k < s.n ∧ (s.sess k).inCS = true
   · obtain ⟨k, hk, hc⟩ := hcs
     refine ⟨k, hk, ?_⟩
@@ -129,6 +126,11 @@ theorem progress (sk : Skeleton) (hw : sk.wellBracketed = true) (file : List KV)
       cases w
       · simp [not_writerInCS hnone]
       · simp [not_anyInCS hnone]
+
+theorem progress (sk : Skeleton) (hw : sk.wellBracketed = true) (file : List KV) (plans : List Plan)
+    (sched : List Nat) (s : Sys) (hr : s = runSched (startOf sk file plans) sched) :
+    (∃ i, i < s.n ∧ (s.sess i).prog ≠ []) → ∃ i, i < s.n ∧ enabled s i = true :=
+  progress_of_inv s (hr ▸ inv_reachable sk hw file plans sched)
 
 /-- One scheduling decision leaves the library as it is or appends exactly one complete record. -/
 theorem tick_file (s : Sys) (i : Nat) : (tick s i).file = s.file ∨ ∃ kv, (tick s i).file = s.file ++ [kv] := by
